@@ -225,6 +225,46 @@ func VerifC10CmdBlacklist() {
 	verifAssert(!f.FilterCmd(name), "C10.cmd.other")
 }
 
+// VerifC10CmdLists: command black and white lists of two names (any lengths 1..CL, symbolic lower-case
+// letters, so one may be a proper prefix of the other or equal to it), inserted in the listed order or
+// together with further insertions afterwards; a queried name (lower or upper case) is withheld iff it is on
+// the black list, or a white list exists and it is not on it - exact names, not prefixes.
+func VerifC10CmdLists() {
+	cl := verifParam("CL", 3)
+	lower := func(name string) string {
+		n := verifRange(name+".len", 1, cl)
+		b := verifBytes(name, n)
+		for _, c := range b {
+			verifAssume(verifAnd(c >= 'a', c <= 'c'))
+		}
+		return string(b)
+	}
+	a, b, q := lower("a"), lower("b"), lower("q")
+	white := verifChoose("white", 2) == 1
+	f := &RedisKeyFilter{}
+	if white {
+		f.InsertCmdWhiteList([]string{a, b}, true)
+	} else {
+		f.InsertCmdBlackList([]string{a}, true)
+		// the built-in list is inserted before the user's: a second call on the same filter
+		f.InsertCmdBlackList([]string{b}, true)
+	}
+	listed := verifOr(q == a, q == b)
+	query := q
+	if verifChoose("upper", 2) == 1 {
+		query = strings.ToUpper(q)
+	}
+	got := f.FilterCmd(query)
+	if white {
+		verifAssert(got == !listed, "C10.cmdlist.white")
+	} else {
+		verifAssert(got == listed, "C10.cmdlist.black")
+	}
+	verifCover(len(a) < len(b) && b[:len(a)] == a, "cmdlist.first-is-prefix-of-second")
+	verifCover(len(b) < len(a) && a[:len(b)] == b, "cmdlist.second-is-prefix-of-first")
+	verifReach("cmdlist.done")
+}
+
 func verifAsciiLetters(s string) bool {
 	ok := true
 	for i := 0; i < len(s); i++ {
